@@ -3,6 +3,8 @@ package checks
 import (
 	"encoding/json"
 	"fmt"
+	"os"
+	"path/filepath"
 	"sort"
 	"strings"
 	"verif/corpus"
@@ -309,6 +311,33 @@ func c13Once(c *mon.Ctx) {
 				c.V("unknown-name-accepted|cli-exclude", fmt.Sprintf("zlint -excludeNames %q exits 0", u), "", nil, nil)
 			}
 			c.R.Count("cli_invocations", 2)
+		}
+	}
+	// values that LOOK like a reference to something else - a file of names, a directory, a URL, standard input, a shell
+	// expansion, a glob: none of them is a listed name or source, so each must be refused (by the library as an
+	// unknown name, by the tool with a non-zero exit), whatever exists at the place they point to
+	emptyFile := filepath.Join(c.Work, "empty-list.txt")
+	_ = os.WriteFile(emptyFile, nil, 0o644)
+	listFile := filepath.Join(c.Work, "names.txt")
+	_ = os.WriteFile(listFile, []byte(g.Names()[0]+"\n"), 0o644)
+	for _, u := range []string{"@" + c.Work, "@" + emptyFile, "@" + listFile, "@/", "@.", "@", "@@", "@/dev/null", "@/proc/self/environ", c.Work, emptyFile, "file://" + listFile, "-", "--", "*", "e_*", "$(echo " + g.Names()[0] + ")", "~", "<" + listFile, "%s", "e_ca_is_ca;w_x"} {
+		c.R.Count("evaluations", 2)
+		c.R.Count("resource_like_selectors", 1)
+		if _, err := g.Filter(lint.FilterOptions{IncludeNames: []string{u}}); err == nil {
+			c.V("unknown-name-accepted|lib-include", fmt.Sprintf("Filter accepted the include name %q, which is not a registered lint", u), "", nil, nil)
+		}
+		if _, err := g.Filter(lint.FilterOptions{ExcludeNames: []string{g.Names()[0], u}}); err == nil {
+			c.V("unknown-name-accepted|lib-exclude", fmt.Sprintf("Filter accepted the exclude name %q, which is not a registered lint", u), "", nil, nil)
+		}
+		var sl lint.SourceList
+		if err := sl.FromString(u); err == nil {
+			c.V("unknown-source-accepted|list", fmt.Sprintf("SourceList.FromString accepted %q", u), "", nil, nil)
+		}
+		for _, fl := range []string{"-includeNames", "-excludeNames", "-includeSources", "-excludeSources"} {
+			if _, _, code := cliListNames(fl, u); code == 0 {
+				c.V("unknown-selector-accepted|cli|"+fl, fmt.Sprintf("zlint %s %q exits 0 although that value is neither a listed name nor a listed source", fl, u), "", nil, nil)
+			}
+			c.R.Count("cli_invocations", 1)
 		}
 	}
 	// neighbours in the ORDER of names: the registry keeps its names sorted, so a look-up may search, merge or bisect.
